@@ -82,6 +82,10 @@ def ev(t, env):
         return 0.0 if abs(den) < 1e-15 else P(t[1], env[t[3]], env[t[4]]) / den
     if op == "sum":
         return sum(ev(x, env) for x in t[1])
+    if op == "hatint":
+        a, P = ev(t[1], env), ev(t[2], env)
+        whole, r = divmod(a / P, 1.0)
+        return P * (0.5 * whole + (r * r if r <= 0.5 else 0.5 - (1.0 - r) ** 2))
     raise ValueError(f"unknown term operator {op!r}")
 
 
